@@ -156,6 +156,7 @@ pub fn run(ctx: &mut Ctx) {
     ctx.floor("prefix.calls", 100_000);
     ctx.floor("content-wants-more", 2_000);
     ctx.floor("long-trailing", 1_500);
+    ctx.floor("record-pairs", 256 * 10 * 2 * 3);
     ctx.floor("soup.triples", 50_000_000);
 
     // --------------------------------------------- sweep: types x lengths (raw + encrypted)
@@ -376,6 +377,55 @@ pub fn run(ctx: &mut Ctx) {
                 }
             }
         }
+    });
+
+
+    // --------------------------------------------- a complete record followed by ANOTHER record: every (type, following type)
+    // pair, with the minimal valid payload of the first type — what follows must never influence the framing
+    ctx.sweep("record-pairs", 256, |ctx, idx| {
+        let t2 = idx as u8;
+        let mut rng = Rng::new(idx ^ 0x9A12);
+        let firsts: Vec<(u8, Vec<u8>)> = vec![
+            (0x14, vec![1]),
+            (0x14, vec![1, 1]),
+            (0x15, vec![1, 0]),
+            (0x15, vec![2, 40]),
+            (0x16, vec![0, 0, 0, 0]),
+            (0x16, vec![14, 0, 0, 0]),
+            (0x17, vec![]),
+            (0x17, rng.bytes(3)),
+            (0x18, vec![1, 0, 1, 7, 0, 0]),
+            (rng.u8() | 0x80, rng.bytes(2)),
+        ];
+        for (t1, p1) in firsts {
+            for v in [0x0303u16, 0x0301] {
+                let mut buf = refenc::record(t1, v, &p1);
+                let l = p1.len();
+                // following record: complete, header only, oversized, or one byte
+                let p2n = rng.usize(0, 5);
+                let p2 = rng.bytes(p2n);
+                let follow = match idx % 4 {
+                    0 => refenc::record(t2, v, &p2),
+                    1 => vec![t2, 3, 3, 0, 9],
+                    2 => vec![t2, 3, 3, 0xff, 0xff, 1, 2],
+                    _ => vec![t2],
+                };
+                buf.extend_from_slice(&follow);
+                for p in [P::Raw, P::Enc, P::Plain] {
+                    let input = &buf[..];
+                    if let Some(o) = ctx.guarded("record parser", input, || call(p, input)) {
+                        ctx.eval();
+                        ctx.count("record-pairs");
+                        if let Some(rule) = judge(p, t1, v, l, input, &o) {
+                            report(ctx, p, t1, v, l, input, &o, rule);
+                        } else if p == P::Plain && (0x14..=0x18).contains(&t1) && !o.out.is_ok() {
+                            report(ctx, p, t1, v, l, input, &o, "valid-record-rejected-because-of-what-follows");
+                        }
+                    }
+                }
+            }
+        }
+        ctx.shape(&("pairs", t2 >> 3));
     });
 
     // --------------------------------------------- plaintext: generated valid records, all prefixes, suffixes
